@@ -225,8 +225,9 @@ def run(ctx):
     from .C04 import r4_4
     r4_4(ctx)
     # "... and is not absent": the per-step state table of workers and facilities
-    from .C10 import r10_2
+    from .C10 import r10_2, r10_2b
     r10_2(ctx)
+    r10_2b(ctx)
     # a run resumed from a saved file starts from the links the reader rebuilds: both ends of every allocation are saved as IDs and
     # must be re-linked to the objects of the loaded project, whole-organization wide and unconditionally (C16's codec table)
     from .C16 import r16_2
